@@ -582,3 +582,15 @@ func FuzzFail(sub string, c any, err error) {
 	name := fmt.Sprintf("%016x.json", Hash(c))
 	os.WriteFile(filepath.Join(dir, name), b, 0644)
 }
+
+// Infra records an infrastructure problem (inconclusive run, never a violation).
+func Infra(format string, a ...any) {
+	r.mu.Lock()
+	r.labels["infra-problem"]++
+	msg := fmt.Sprintf(format, a...)
+	if len(msg) > 1200 {
+		msg = msg[:1200] + "..."
+	}
+	r.notes = append(r.notes, "INFRA: "+msg)
+	r.mu.Unlock()
+}
